@@ -14,7 +14,8 @@ ASSUMPTIONS = ["virtual Tymer driven through a harness-owned tymth; MonoTimer dr
 TY_OPS = [("adv", 0.5), ("adv", 1.0), ("adv", 2.5), ("adv", 0.1), ("rew", 0.5), ("rew", 1.0),
           ("start", None, None), ("start", 1.0, None), ("start", 0.0, None), ("start", 0.1, None), ("start", None, 0.5),
           ("start", 2.5, 3.0), ("restart", None), ("restart", 0.5)]
-MO_OPS = [("clk", 0.5), ("clk", 2.0), ("clk", -0.5), ("clk", -2.0), ("read",), ("start", None), ("start", 1.0), ("restart",)]
+MO_OPS = [("clk", 0.5), ("clk", 2.0), ("clk", -0.5), ("clk", -2.0), ("read", "exr"), ("read", "xre"), ("read", "rxe"),
+          ("start", None), ("start", 1.0), ("restart",)]   # read: order in which elapsed / expired / remaining are read
 
 
 def depths(tier):
@@ -106,9 +107,10 @@ def run_mono(retro, seq, states=None):
                 last_el, was_exp = None, False
                 continue
             try:
-                el = tm.elapsed
-                ex = tm.expired
-                rem = tm.remaining
+                vals = {}
+                for which in op[1]:
+                    vals[which] = tm.elapsed if which == "e" else tm.expired if which == "x" else tm.remaining
+                el, ex, rem = vals["e"], vals["x"], vals["r"]
             except timing.RetroTimerError:
                 if retro:
                     v.append(("mono:raises-with-retro", "RetroTimerError with retro=True after %r" % (seq[:k + 1],)))
